@@ -146,12 +146,15 @@ def run(ctx, n_override=None):
                 x = X.gen_cost_only(rng)
             elif r < 0.9:
                 x = X.Xact([X.Post('Null:Assets:Cash', 'R', None), X.Post('V:Expenses:Food', 'V', X.Amt.rand(rng, '$'))])
-            else:
+            elif r < 0.97:
                 x = X.gen_balanced(rng)
+            else:
+                x = X.gen_grant(rng)
             x.date = '2020/%02d/%02d' % (rng.randrange(1, 13), rng.randrange(1, 29))
             xs.append(x)
         # directive combinations: the bucket declared as `A`, `bucket` or `account .. default`, and the whole journal inside an
         # `apply account` block (the bucket's account then lives below the root like every other account)
+        X.written_variants(xs)
         root = rng.choice(['Top', 'Personal:Books']) if rng.random() < 0.25 else None
         bstyle = rng.randrange(3)
         res.count('layout:%s%s' % ('apply-account' if root else 'plain', (':bucket-style-%d' % bstyle) if bucket else ''))
